@@ -125,7 +125,7 @@ func (g *vGenSess) prio() int {
 func (g *vGenSess) double() {
 	r := g.r
 	g.hasB = true
-	liteB := r.chance(1, 8)
+	liteB := r.chance(1, 8) && g.focus != "C01" // C01 is about two full agents (lite: C03)
 	renom := r.chance(1, 4) || (g.focus == "C20" && r.chance(3, 4))
 	g.o.stat("sess.double")
 	g.op("new %s %s", g.cfg("A", false, renom), g.cfg("B", liteB, false))
@@ -241,8 +241,15 @@ func (g *vGenSess) double() {
 	}
 	// fair, loss-free suffix
 	rounds := 6 + r.intn(30)
+	advs := []int{20, 50, 100, 200, 400}
+	if g.focus == "C01" {
+		// long enough for every acceptance wait and keepalive interval, so that the convergence clause of the
+		// C01 monitor applies (it needs max wait + max keepalive + 1 s of fair, loss-free time)
+		rounds = 25 + r.intn(20)
+		advs = []int{100, 200, 200, 400, 400}
+	}
 	for i := 0; i < rounds; i++ {
-		g.op("adv %d", []int{20, 50, 100, 200, 400}[r.intn(5)])
+		g.op("adv %d", advs[r.intn(5)])
 		for g.inflight > 0 {
 			g.op("deliver 0")
 			g.inflight--
